@@ -662,6 +662,33 @@ def check_operator(ctx, rep):
         if len(e.args) == 2:
             return tr(e.args[0]) * tr(e.args[1])
         return None
+    def einsum(tr, e):
+        """einsum("…a,ab,…b->…", p, Minv, p): a quadratic form exactly when the two indices of the matrix are contracted with the two vectors, one each"""
+        if not (e.args and isinstance(e.args[0], ast.Constant) and isinstance(e.args[0].value, str)) or len(e.args) != 4:
+            return None
+        spec = e.args[0].value.replace(' ', '')
+        if '->' not in spec:
+            return None
+        ins, out = spec.split('->')
+        parts = [x.replace('...', '') for x in ins.split(',')]
+        ops = [tr(a) for a in e.args[1:]]
+        if len(parts) != 3 or out.replace('...', ''):
+            return None
+        mats = [i for i, x in enumerate(parts) if len(x) == 2]
+        vecs = [i for i, x in enumerate(parts) if len(x) == 1]
+        if len(mats) != 1 or len(vecs) != 2:
+            return None
+        a, b = parts[mats[0]]
+        prod = ops[0] * ops[1] * ops[2]
+        if a != b and sorted(parts[v] for v in vecs) == sorted([a, b]):
+            return prod
+        return prod * Rat.sym('contraction_that_is_not_a_quadratic_form')
+
+    def summed(tr, e):
+        # (p * Minv * p).sum(-1): the sum over the components is what dot() does
+        if isinstance(e.func, ast.Attribute) and e.func.attr == 'sum' and len(e.args) <= 1:
+            return tr(e.func.value)
+        return None
     vals = []
     for st in ast.walk(kfn):
         if isinstance(st, ast.Assign):
@@ -676,17 +703,23 @@ def check_operator(ctx, rep):
                         return node
                 import copy
                 v2 = MM().visit(copy.deepcopy(v))
-                vals.append(ToRat(katom, funcs={'dot': dot})(v2))
+                vals.append(ToRat(katom, funcs={'dot': dot, 'einsum': einsum, 'sum': summed})(v2))
             except Unsupported:
                 vals.append(None)
     want = Rat.sym('p') * Rat.sym('p') * Rat.sym('Minv') * Rat.const(1) / Rat.const(2)
-    ok = len(vals) >= 1 and all(v is not None and v.equals(want) for v in vals)
-    rep.check('C16.K', 'Hamiltonian.kinetic_energy::half-p-Minv-p', ok, where(ham.module, kfn), {'branches': [repr(v) for v in vals]},
-              "kinetic energy must be ½·pᵀM⁻¹p in both the diagonal and the dense branch")
+    if any(v is None for v in vals):
+        # a branch written in a form the translation does not read (a triangular solve, an einsum …) is not a violation: it is not decided
+        rep.undecided('C16.K', 'Hamiltonian.kinetic_energy::half-p-Minv-p', where(ham.module, kfn), 'a branch of the kinetic energy is not an arithmetic expression of the momentum and the inverse mass matrix',
+                      {'branches': [repr(v) for v in vals]})
+    else:
+        ok = len(vals) >= 1 and all(v.equals(want) for v in vals)
+        rep.check('C16.K', 'Hamiltonian.kinetic_energy::half-p-Minv-p', ok, where(ham.module, kfn), {'branches': [repr(v) for v in vals]},
+                  "kinetic energy must be ½·pᵀM⁻¹p in both the diagonal and the dense branch")
     sfn = ham.resolve('sample_momentum')[1]
     mm = [a.arg for a in sfn.args.args][1]
     good = 0
     bad = []
+    unknown = []
     for c in ast.walk(sfn):
         if isinstance(c, ast.Call):
             nm = (dotted_name(c.func) or '').split('.')[-1]
@@ -698,12 +731,34 @@ def check_operator(ctx, rep):
                     bad.append(f"Normal scale {ast.unparse(s)}")
             if nm == 'MultivariateNormal':
                 kws = {kw.arg: kw.value for kw in c.keywords}
-                if 'covariance_matrix' in kws and isinstance(kws['covariance_matrix'], ast.Name) and kws['covariance_matrix'].id == mm:
+
+                def is_m(e):
+                    return isinstance(e, ast.Name) and e.id == mm
+
+                def fn_of_m(e, names):
+                    """e is f(M) for f in names — directly, or through one method of the class whose body applies f to its own parameter"""
+                    if isinstance(e, ast.Call) and (dotted_name(e.func) or '').split('.')[-1] in names and e.args and is_m(e.args[0]):
+                        return True
+                    if isinstance(e, ast.Call) and self_attr(e.func) and len(e.args) == 1 and is_m(e.args[0]):
+                        r_ = ham.resolve(e.func.attr)
+                        if r_ is not None and len(r_[1].args.args) == 2:
+                            p_ = r_[1].args.args[1].arg
+                            return any(isinstance(x, ast.Call) and (dotted_name(x.func) or '').split('.')[-1] in names and x.args and isinstance(x.args[0], ast.Name)
+                                       and x.args[0].id == p_ for x in ast.walk(r_[1]))
+                    return False
+                if ('covariance_matrix' in kws and is_m(kws['covariance_matrix'])) or ('scale_tril' in kws and fn_of_m(kws['scale_tril'], ('cholesky',))) \
+                        or ('precision_matrix' in kws and fn_of_m(kws['precision_matrix'], ('inverse', 'inv'))):
                     good += 1
+                elif ('covariance_matrix' in kws and fn_of_m(kws['covariance_matrix'], ('inverse', 'inv', 'cholesky', 'sqrt'))) or ('scale_tril' in kws and is_m(kws['scale_tril'])) \
+                        or ('precision_matrix' in kws and is_m(kws['precision_matrix'])):
+                    bad.append(f"MultivariateNormal({', '.join(f'{k}={ast.unparse(v)}' for k, v in kws.items())})")
                 else:
-                    bad.append(f"MultivariateNormal({', '.join(k or '' for k in kws)})")
-    rep.check('C16.K', 'Hamiltonian.sample_momentum::N(0,M)', good == 2 and not bad, where(ham.module, sfn), {'problems': bad},
-              f"momentum must be drawn from N(0, M) (std √M diagonal / covariance M dense) to match K = ½pᵀM⁻¹p; found {bad}")
+                    unknown.append(f"MultivariateNormal({', '.join(f'{k}={ast.unparse(v)}' for k, v in kws.items())})")
+    if unknown and not bad:
+        rep.undecided('C16.K', 'Hamiltonian.sample_momentum::N(0,M)', where(ham.module, sfn), f"the covariance of the momentum draw is given in a form that is not read: {unknown}")
+    else:
+        rep.check('C16.K', 'Hamiltonian.sample_momentum::N(0,M)', good == 2 and not bad, where(ham.module, sfn), {'problems': bad},
+                  f"momentum must be drawn from N(0, M) (std √M diagonal / covariance M, scale_tril cholesky(M) or precision M⁻¹ dense) to match K = ½pᵀM⁻¹p; found {bad}")
     # potential energy is minus the joint
     pfn = ham.resolve('potential_energy')[1]
     ok = any(isinstance(st, ast.Assign) and isinstance(st.value, ast.UnaryOp) and isinstance(st.value.op, ast.USub)
@@ -800,3 +855,8 @@ def run(ctx, rep):
     # the operator's cached M⁻¹ follows the mass matrix through change notifications only: no silent in-place write to a parameter in the hmc package
     from props import c11
     c11.check_inplace(ctx, rep, rule='C16.K', only=lambda m, fn: m.name.startswith('torchtree.inference.hmc'))
+    # nothing computed from the mass matrix (a factor, an inverse) is kept across calls under a key that ignores its value
+    from sa.report import RuleProxy
+    c11.check_memo_keys(ctx, RuleProxy(rep, 'C16.K', 'memo::'), only=lambda m: m.name.startswith('torchtree.inference.hmc'))
+    # the Hamiltonian is evaluated for the momentum it is given (C11.K)
+    c11.check_call_arguments(ctx, RuleProxy(rep, 'C16.K', 'call-arguments::'), rule='C16.K', module_prefix='torchtree.inference.hmc')
